@@ -647,7 +647,7 @@ impl Store {
                 let tags = filter.tags()?;
                 for mut tag in tags.iter() {
                     if let Some(tag0) = tag.next().filter(|name| !name.is_empty()) {
-                        if let Some(tagvalue) = tag.next() {
+                        for tagvalue in tag {
                             #[cfg(feature = "verif")]
                             crate::verif::point("find.range");
                             let iter = self.indexes.atc_iter(
@@ -704,7 +704,7 @@ impl Store {
                 let tags = filter.tags()?;
                 for mut tag in tags.iter() {
                     if let Some(tag0) = tag.next().filter(|name| !name.is_empty()) {
-                        if let Some(tagvalue) = tag.next() {
+                        for tagvalue in tag {
                             #[cfg(feature = "verif")]
                             crate::verif::point("find.range");
                             let iter = self.indexes.ktc_iter(
@@ -760,7 +760,7 @@ impl Store {
             let tags = filter.tags()?;
             for mut tag in tags.iter() {
                 if let Some(tag0) = tag.next().filter(|name| !name.is_empty()) {
-                    if let Some(tagvalue) = tag.next() {
+                    for tagvalue in tag {
                         #[cfg(feature = "verif")]
                         crate::verif::point("find.range");
                         let iter =
